@@ -1,19 +1,53 @@
-/-! probe: nbio Conn write path incl. Writev, epoll arming (LT/ET/ONESHOT), open-before-register, close -/
+/-!
+# M1 ConnWrite — the write path of nbio's `Conn` (conn_unix.go, sendfile_unix.go, writev_linux.go,
+poller_epoll.go: addConn / EPOLLOUT handling / ResetPollerEvent)
+
+One model step = one mutex-protected section (or one unlocked poller statement) of the Go code:
+
+* `write` / `writev` / `sendfile`   — the whole method body (under `c.mux`)
+* `register`                        — `addConn`'s `EPOLL_CTL_ADD` (runs *after* the open callback)
+* `registerDial`                    — `addDialer` (DialAsync, connect in progress)
+* `evTake`                          — the kernel hands an event to the poller (ONESHOT: disarms the fd),
+                                      the poller runs `c.flush()` for the EPOLLOUT part
+* `evEnd`                           — what the poller does after the read part: `ResetPollerEvent`
+                                      (ONESHOT) and `closeWithError(io.EOF)` for an error event
+* `close`                           — `closeWithError` (flip under the mutex + teardown)
+
+Between `evTake` and `evEnd` other steps may occur (writes from the data callback or from other
+goroutines). Kernel answers are explicit inputs; an exhausted answer script means EAGAIN. A
+zero-length request is answered `0, nil` by the kernel without needing room: the Go `flush` loop
+then neither consumes an answer nor changes state, i.e. it spins; `flushLoop` runs on fuel and
+reports that as `hung` (a theorem excludes it).
+
+Static configuration is `Cfg`; ghost field `accepted` records the byte ranges the calls reported as
+accepted (it is written, never read, by the step functions; the same holds for `wire`).
+Core Lean only.
+-/
 namespace ConnFull
 
 abbrev Bytes := List UInt8
 
 inductive Mode | lt | et | oneshot deriving DecidableEq, Repr
 inductive KAns | wrote (n : Nat) | eagain | eintr | fail deriving DecidableEq, Repr
+inductive Err | none | closed | overflow | io deriving DecidableEq, Repr
+
+/-- `(n, err)` as returned by Write / Writev / Sendfile -/
+structure Ret where
+  n : Int
+  err : Err
+  deriving DecidableEq, Repr
 
 structure Cfg where
-  tcp : Bool          -- c.typ == ConnTypeTCP (else Unix stream)
   mode : Mode
   maxWB : Nat
+  /-- size and content of the source file of `Sendfile` -/
+  fsize : Nat
+  file : Nat → UInt8
 
-structure Item where
-  data : Bytes
-  off : Nat
+/-- `toWrite`: a buffer with the offset of its first unsent byte, or a file range -/
+inductive Item
+  | buf (data : Bytes) (off : Nat)
+  | file (off rem : Nat)
   deriving Repr
 
 /-- one epoll_ctl call as seen by the kernel: op (true = ADD), wants EPOLLOUT, succeeded -/
@@ -25,9 +59,17 @@ structure Ctl where
 
 structure S where
   closed : Bool := false
+  /-- `flush` is spinning while holding the mutex -/
+  hung : Bool := false
   wl : List Item := []
   left : Nat := 0
   isWAdded : Bool := false
+  -- poller side: an event of this conn has been taken and its tail is still to run
+  rearm : Bool := false       -- … `ResetPollerEvent` is still to come (ONESHOT)
+  evErr : Bool := false       -- … `closeWithError(io.EOF)` is still to come
+  -- DialAsync: `c.onConnected != nil` (connect in progress) / the poller is running that callback
+  connecting : Bool := false
+  connEv : Bool := false
   -- kernel side
   reg : Bool := false         -- fd registered with epoll
   kOut : Bool := false        -- EPOLLOUT in the registered interest set
@@ -35,125 +77,283 @@ structure S where
   wire : Bytes := []
   ctl : List Ctl := []
   onClose : Nat := 0
+  -- ghost
+  accepted : Bytes := []
 
-def maxCache : Nat := 65536
+def maxCache : Nat := 65536            -- maxWriteCacheOrFlushSize
+def maxSendfile : Nat := 4194304       -- maxSendfileSize
 
-/-- newToWriteBuf -/
+def fileRange (g : Cfg) (off n : Nat) : Bytes := (List.range n).map fun i => g.file (off + i)
+
+def total (bs : List Bytes) : Nat := (bs.map List.length).sum
+
+/-! ## queue -/
+
+def pushItem (s : S) (t : Item) : S := { s with wl := s.wl ++ [t] }
+
+/-- newToWriteBuf (an empty slice is ignored) -/
 def enqueue (s : S) (b : Bytes) : S :=
+  if b.length = 0 then s else
   let s := { s with left := s.left + b.length }
   match s.wl.getLast? with
-  | none => { s with wl := [⟨b, 0⟩] }
-  | some tail =>
-    if tail.data.length + b.length > maxCache then { s with wl := s.wl ++ [⟨b, 0⟩] }
-    else { s with wl := s.wl.dropLast ++ [⟨tail.data ++ b, tail.off⟩] }
+  | none => pushItem s (.buf b 0)
+  | some (.file _ _) => pushItem s (.buf b 0)
+  | some (.buf d off) =>
+    if d.length + b.length > maxCache then pushItem s (.buf b 0)
+    else { s with wl := s.wl.dropLast ++ [.buf (d ++ b) off] }
 
-/-- the kernel's view of an EPOLL_CTL_MOD / ADD -/
+/-- newToWriteFile -/
+def enqueueFile (s : S) (off rem : Nat) : S := pushItem s (.file off rem)
+
+/-! ## epoll -/
+
+/-- the kernel's view of an EPOLL_CTL_ADD / MOD -/
 def kctl (s : S) (add out : Bool) : S :=
   if add then { s with reg := true, kOut := out, disarmed := false, ctl := s.ctl ++ [⟨true, out, true⟩] }
   else if s.reg then { s with kOut := out, disarmed := false, ctl := s.ctl ++ [⟨false, out, true⟩] }
   else { s with ctl := s.ctl ++ [⟨false, out, false⟩] }      -- ENOENT, ignored by the caller
 
-/-- poller.modWrite / resetRead / addRead per epoll mode -/
+/-- poller.modWrite / resetRead / addRead / addReadWrite per epoll mode -/
 def pModWrite (g : Cfg) (s : S) : S := match g.mode with | .et => s | _ => kctl s false true
 def pResetRead (g : Cfg) (s : S) : S := match g.mode with | .et => s | _ => kctl s false false
 def pAddRead (g : Cfg) (s : S) : S := match g.mode with | .et => kctl s true true | _ => kctl s true false
+def pAddReadWrite (_g : Cfg) (s : S) : S := kctl s true true
 
+/-- Conn.modWrite -/
 def cModWrite (g : Cfg) (s : S) : S :=
   if !s.closed && !s.isWAdded then pModWrite g { s with isWAdded := true } else s
+/-- Conn.resetRead: back to read-only, unless something is left to write -/
 def cResetRead (g : Cfg) (s : S) : S :=
-  if !s.closed && s.isWAdded then pResetRead g { s with isWAdded := false } else s
+  if !s.closed && s.isWAdded && s.wl.isEmpty then pResetRead g { s with isWAdded := false } else s
+/-- Conn.ResetPollerEvent -/
 def resetPollerEvent (g : Cfg) (s : S) : S :=
   if g.mode == .oneshot && !s.closed then (if s.wl.isEmpty then pResetRead g s else pModWrite g s) else s
 
+/-- closeWithErrorWithoutLock after `closed = true`: release the queue, notify, close the fd -/
 def closeNow (s : S) : S := { s with closed := true, wl := [], onClose := s.onClose + 1 }
 
 def overflow (g : Cfg) (s : S) (n : Nat) : Bool := g.maxWB > 0 && s.left + n > g.maxWB
 
-inductive Ret | ok (n : Int) | closed (n : Int) | overflow | io (n : Int) | again (n : Int) deriving DecidableEq, Repr
-
 def kN (k : KAns) (len : Nat) : Nat := match k with | .wrote n => min n len | _ => 0
 
-/-- Write's/Writev's tail -/
-def post (g : Cfg) (s : S) : S := if s.wl.isEmpty then s else cModWrite g s
+/-! ## Write / Writev -/
 
-/-- c.write: returns (state, n, hardError?) -/
+/-- c.write -/
 def writeInner (g : Cfg) (s : S) (b : Bytes) (k : KAns) : S × Ret :=
-  if b.length == 0 then (s, .ok 0)
-  else if overflow g s b.length then (s, .overflow)
+  if b.length = 0 then (s, ⟨0, .none⟩)
+  else if overflow g s b.length then (s, ⟨-1, .overflow⟩)
   else if s.wl.isEmpty then
-    if k == .fail then (s, .io (-1))
+    if k = .fail then (s, ⟨-1, .io⟩)
     else
       let n := kN k b.length
-      let s := { s with wire := s.wire ++ b.take n }
-      if b.length - n > 0 && g.tcp then (enqueue s (b.drop n), .ok b.length) else (s, .ok b.length)
-  else (enqueue s b, .ok b.length)
+      let s := { s with wire := s.wire ++ b.take n, accepted := s.accepted ++ b }
+      if b.length - n > 0 then (enqueue s (b.drop n), ⟨b.length, .none⟩) else (s, ⟨b.length, .none⟩)
+  else (enqueue { s with accepted := s.accepted ++ b } b, ⟨b.length, .none⟩)
 
+/-- the tail of Write / Writev: fatal error ⇒ close; backlog ⇒ arm EPOLLOUT -/
 def finishCall (g : Cfg) (r : S × Ret) : S × Ret :=
-  match r.2 with
-  | .overflow => (closeNow r.1, .overflow)
-  | .io n => (closeNow r.1, .io n)
-  | _ => (post g r.1, r.2)
+  if r.2.err = .none then ((if r.1.wl.isEmpty then r.1 else cModWrite g r.1), r.2)
+  else (closeNow r.1, r.2)
 
 def write (g : Cfg) (s : S) (b : Bytes) (k : KAns) : S × Ret :=
-  if s.closed then (s, .closed (-1)) else finishCall g (writeInner g s b k)
+  if s.hung then (s, ⟨0, .none⟩)
+  else if s.closed then (s, ⟨-1, .closed⟩) else finishCall g (writeInner g s b k)
 
-/-- c.writev (len(in) ≠ 1), with its remainder bookkeeping exactly as written -/
+/-- the remainder bookkeeping of c.writev: `n` bytes of `bs` went out, queue the rest -/
+def queueRest : S → Nat → List Bytes → S
+  | s, _, [] => s
+  | s, n, b :: rest =>
+    if n = 0 then queueRest (enqueue s b) 0 rest
+    else if n < b.length then queueRest (enqueue s (b.drop n)) 0 rest
+    else queueRest s (n - b.length) rest
+
+/-- c.writev (len(in) ≠ 1) -/
 def writevInner (g : Cfg) (s : S) (bs : List Bytes) (k : KAns) : S × Ret :=
-  let size := (bs.map List.length).sum
-  if overflow g s size then (s, .overflow)
-  else if !s.wl.isEmpty then (bs.foldl enqueue s, .ok size)
-  else if size == 0 then (s, .ok 0)
-  else match k with
-    | .fail => (s, .io 0)
-    | .eagain | .eintr => (s, .again 0)
-    | .wrote n0 =>
-      let nwrite := min n0 size
-      let s := { s with wire := s.wire ++ (bs.flatten).take nwrite }
-      if nwrite > 0 && nwrite < size then
-        -- for i…; n > 0: queue only the partially written buffer's tail
-        let rec go (s : S) (n : Nat) : List Bytes → S
-          | [] => s
-          | b :: rest => if n == 0 then s else if n < b.length then enqueue s (b.drop n) else go s (n - b.length) rest
-        (go s nwrite bs, .ok nwrite)
-      else (s, .ok nwrite)
+  let size := total bs
+  if overflow g s size then (s, ⟨-1, .overflow⟩)
+  else if !s.wl.isEmpty then (bs.foldl enqueue { s with accepted := s.accepted ++ bs.flatten }, ⟨size, .none⟩)
+  else if size = 0 then (s, ⟨0, .none⟩)                     -- no iovec: no syscall
+  else if k = .fail then (s, ⟨0, .io⟩)
+  else
+    let nwrite := kN k size
+    let s := { s with wire := s.wire ++ bs.flatten.take nwrite, accepted := s.accepted ++ bs.flatten }
+    if nwrite < size then (queueRest s nwrite bs, ⟨size, .none⟩) else (s, ⟨nwrite, .none⟩)
 
 def writev (g : Cfg) (s : S) (bs : List Bytes) (k : KAns) : S × Ret :=
-  if s.closed then (s, .closed 0)
+  if s.hung then (s, ⟨0, .none⟩)
+  else if s.closed then (s, ⟨0, .closed⟩)
   else match bs with
     | [b] => finishCall g (writeInner g s b k)
     | _ => finishCall g (writevInner g s bs k)
 
-/-- flush; exhausted script = EAGAIN -/
-def flush (g : Cfg) : S → List KAns → S
-  | s, [] => s
-  | s, k :: ks =>
-    if s.closed then s else
-    match s.wl with
-    | [] => s                                  -- `if len(c.writeList) == 0 { return nil }` (no resetRead)
-    | h :: tl =>
-      match k with
-      | .eagain => s
-      | .eintr => flush g s ks
-      | .fail => closeNow s
+/-! ## Sendfile -/
+
+/-- the direct loop of Sendfile: one syscall per iteration, at most `maxSendfile` bytes each;
+    `true` = fatal error -/
+def sendfileLoop (g : Cfg) : S → Nat → Nat → List KAns → S × Bool
+  | s, off, rem, [] =>
+    if rem = 0 then (s, false)
+    else (cModWrite g (enqueueFile { s with accepted := s.accepted ++ fileRange g off rem } off rem), false)
+  | s, off, rem, k :: ks =>
+    if rem = 0 then (s, false)
+    else match k with
+      | .eagain => (cModWrite g (enqueueFile { s with accepted := s.accepted ++ fileRange g off rem } off rem), false)
+      | .eintr => sendfileLoop g s off rem ks
+      | .fail => (closeNow s, true)
       | .wrote n0 =>
-        let rest := h.data.drop h.off
-        let n := min n0 rest.length
-        if n = 0 then flush g s ks
-        else
-          let s := { s with wire := s.wire ++ rest.take n, left := s.left - n }
-          if n = rest.length then
-            let s := { s with wl := tl }
-            if tl.isEmpty then cResetRead g s else flush g s ks
-          else flush g { s with wl := ⟨h.data, h.off + n⟩ :: tl } ks
+        let n := min n0 (min maxSendfile rem)
+        if n = 0 then (s, false)                             -- `n == 0 && err == nil`: source exhausted
+        else sendfileLoop g { s with wire := s.wire ++ fileRange g off n, accepted := s.accepted ++ fileRange g off n }
+               (off + n) (rem - n) ks
 
-/-- one event for this conn in readWriteLoop (reads hit EAGAIN at once in this probe) -/
-def event (g : Cfg) (s : S) (evOut evIn : Bool) (ks : List KAns) : S :=
-  if !s.reg || s.closed then s else
+/-- the range Sendfile will send: file position `off`, requested `len` (≤ 0 or too large = to EOF) -/
+def sendRange (g : Cfg) (off len : Nat) : Nat := if len = 0 || len > g.fsize - off then g.fsize - off else len
+
+/-- Conn.Sendfile with the file positioned at `off` -/
+def sendfile (g : Cfg) (s : S) (off len : Nat) (ks : List KAns) : S × Ret :=
+  if s.hung then (s, ⟨0, .none⟩)
+  else if s.closed then (s, ⟨0, .closed⟩)
+  else
+    let rem := sendRange g off len
+    if rem = 0 then (s, ⟨0, .none⟩)                          -- nothing to send
+    else if !s.wl.isEmpty then
+      (enqueueFile { s with accepted := s.accepted ++ fileRange g off rem } off rem, ⟨rem, .none⟩)
+    else
+      let r := sendfileLoop g s off rem ks
+      if r.2 then (r.1, ⟨0, .io⟩) else (r.1, ⟨rem, .none⟩)
+
+/-! ## flush -/
+
+/-- the loop of Conn.flush; every iteration that reaches the kernel with a non-empty request
+    consumes one answer -/
+def flushLoop (g : Cfg) : Nat → S → List KAns → S
+  | 0, s, _ => { s with hung := true }
+  | fuel + 1, s, ks =>
+    match s.wl with
+    | [] => cResetRead g s
+    | .buf d off :: tl =>
+      let rest := d.drop off
+      if rest.length = 0 then flushLoop g fuel s ks        -- write(fd, "", 0) = 0: nothing changes, loop again
+      else match ks with
+        | [] => s                                           -- script exhausted: EAGAIN
+        | .eagain :: _ => s
+        | .eintr :: ks => flushLoop g fuel s ks
+        | .fail :: _ => closeNow s
+        | .wrote n0 :: ks =>
+          let n := min n0 rest.length
+          if n = 0 then flushLoop g fuel s ks
+          else
+            let s := { s with wire := s.wire ++ rest.take n, left := s.left - n }
+            if n = rest.length then flushLoop g fuel { s with wl := tl } ks
+            else flushLoop g fuel { s with wl := .buf d (off + n) :: tl } ks
+    | .file off rem :: tl =>
+      if rem = 0 then flushLoop g fuel s ks                 -- `for v.remain > 0` not entered, item stays
+      else match ks with
+        | [] => s
+        | .eagain :: _ => s
+        | .eintr :: ks => flushLoop g fuel s ks
+        | .fail :: _ => closeNow s
+        | .wrote n0 :: ks =>
+          let n := min n0 rem
+          if n = 0 then flushLoop g fuel s ks
+          else
+            let s := { s with wire := s.wire ++ fileRange g off n }
+            if n = rem then flushLoop g fuel { s with wl := tl } ks
+            else flushLoop g fuel { s with wl := .file (off + n) (rem - n) :: tl } ks
+
+/-- Conn.flush -/
+def flush (g : Cfg) (s : S) (ks : List KAns) : S :=
+  if s.closed then s else if s.wl.isEmpty then s else flushLoop g (ks.length + 1) s ks
+
+/-! ## registration and events -/
+
+/-- addConn's registration (after the open callback): interest chosen by the queue state -/
+def register (g : Cfg) (s : S) : S :=
+  if s.hung || s.reg || s.closed then s
+  else if s.wl.isEmpty then pAddRead g s else pAddReadWrite g s
+
+/-- addDialer (DialAsync with the connect in progress): write interest is registered from the start and
+    the connected callback is pending -/
+def registerDial (g : Cfg) (s : S) : S :=
+  if s.hung || s.reg || s.closed then s
+  else pAddReadWrite g { s with isWAdded := true, connecting := true }
+
+/-- which parts of a requested event the kernel can deliver in this state (no data arrives on a
+    connection that is not yet established; the poller handles one event of a conn at a time) -/
+def deliverable (s : S) (out inn err : Bool) : Bool × Bool × Bool :=
+  if s.hung || !s.reg || s.closed || s.disarmed || s.rearm || s.evErr || s.connEv then (false, false, false)
+  else (out && s.kOut, inn && !s.connecting, err)
+
+/-- the kernel reports an event, the poller runs the EPOLLOUT part -/
+def evTake (g : Cfg) (s : S) (out inn err : Bool) (ks : List KAns) : S :=
+  let d := deliverable s out inn err
+  if !(d.1 || d.2.1 || d.2.2) then s else
   let s := if g.mode == .oneshot then { s with disarmed := true } else s
-  let s := if evOut then flush g s ks else s
-  if evIn then resetPollerEvent g s else s
+  -- EPOLLOUT: the connected callback if the connect was in progress (its calls are separate steps),
+  -- else flush
+  let s := if d.1 then (if s.connecting then { s with connEv := true } else flush g s ks) else s
+  { s with rearm := g.mode == .oneshot && (d.1 || d.2.1), evErr := d.2.2 }
 
-/-- the safety form of C04 -/
-def armedOK (g : Cfg) (s : S) : Bool := s.closed || s.wl.isEmpty || (s.reg && s.kOut && !s.disarmed) || (g.mode == .et && s.reg)
+/-- the tail of the poller's handling of the event -/
+def evEnd (g : Cfg) (s : S) : S :=
+  if s.hung then s else
+  -- after the connected callback: `c.onConnected = nil; c.resetRead()` under the mutex
+  let s := if s.connEv then cResetRead g { s with connecting := false, connEv := false } else s
+  let s := if s.rearm then resetPollerEvent g { s with rearm := false } else s
+  if s.evErr then (if s.closed then { s with evErr := false } else closeNow { s with evErr := false }) else s
+
+def close (s : S) : S := if s.hung || s.closed then s else closeNow s
+
+/-! ## transition system -/
+
+inductive Op
+  | write (b : Bytes) (k : KAns)
+  | writev (bs : List Bytes) (k : KAns)
+  | sendfile (off len : Nat) (ks : List KAns)
+  | register
+  | registerDial
+  | evTake (out inn err : Bool) (ks : List KAns)
+  | evEnd
+  | close
+
+def step (g : Cfg) (s : S) : Op → S
+  | .write b k => (write g s b k).1
+  | .writev bs k => (writev g s bs k).1
+  | .sendfile off len ks => (sendfile g s off len ks).1
+  | .register => register g s
+  | .registerDial => registerDial g s
+  | .evTake o i e ks => evTake g s o i e ks
+  | .evEnd => evEnd g s
+  | .close => close s
+
+def run (g : Cfg) (s : S) (ops : List Op) : S := ops.foldl (step g) s
+
+def init : S := {}
+
+/-! ## abstract quantities the properties are about -/
+
+def Item.rest (g : Cfg) : Item → Bytes
+  | .buf d off => d.drop off
+  | .file off rem => fileRange g off rem
+
+/-- the bytes still queued, in order -/
+def pending (g : Cfg) (wl : List Item) : Bytes := (wl.map (Item.rest g)).flatten
+
+def Item.held : Item → Nat
+  | .buf d off => d.length - off
+  | .file _ _ => 0
+
+/-- unsent bytes held in queued buffers (what `left` accounts for; file ranges are not held) -/
+def unsent (wl : List Item) : Nat := (wl.map Item.held).sum
+
+def Item.todo : Item → Nat
+  | .buf d off => d.length - off
+  | .file _ rem => rem
+
+/-- everything still to be transmitted, file ranges included (the progress measure) -/
+def backlog (wl : List Item) : Nat := (wl.map Item.todo).sum
+
+/-- EPOLLOUT will be reported when the kernel has room -/
+def outArmed (s : S) : Prop := s.reg = true ∧ s.kOut = true ∧ s.disarmed = false
 
 end ConnFull
